@@ -61,6 +61,13 @@ def branch_program(mn, d, shape, base=None):
         num = {"label-k": f"{abs(k):o}", "label-kdec": f"{abs(k)}.", "label-khex": f"0x{abs(k):x}"}[shape]
         sign = "+" if k >= 0 else "-"
         return f"{head}here:\n\t{mn} {reg}here{sign}{num}\n", 0, B
+    if shape == "shadowed-export":
+        # the first file exports 'tgt'; the second file has a label 'tgt' of its own behind the branch: the own label is meant
+        inner = branch_program(mn, d, "label", None)
+        if inner is None or d < 0:
+            return None
+        text, off, addr = inner
+        return {"a.mac": f"{head}tgt::\tnop\n\tnop\n", "b.mac": text}, ["a.mac", "b.mac"], 4 + off, B + 4 + off
     if shape == "include-twice":
         # the same file included twice: the second copy's branch aims at the second copy's label
         inner = branch_program(mn, d, "label", None)
@@ -135,7 +142,7 @@ def branch_program(mn, d, shape, base=None):
     raise ValueError(shape)
 
 
-SHAPES = ["label", "local", "local-colon", "label-k", "label-kdec", "label-khex", "dot", "dot-dec", "dot-repeat", "glob-include", "glob-second", "inner-include", "local-k", "local-kdec", "include-twice", "local-over-repeat", "local-over-include"]
+SHAPES = ["label", "local", "local-colon", "label-k", "label-kdec", "label-khex", "dot", "dot-dec", "dot-repeat", "glob-include", "glob-second", "inner-include", "local-k", "local-kdec", "include-twice", "local-over-repeat", "local-over-include", "shadowed-export"]
 
 
 def check_branch(mn, d, shape, base=None):
@@ -422,7 +429,7 @@ def run_shard(spec, ctx):
         mn = spec["mn"]
         for d in range(spec["lo"], spec["hi"] + 1):
             for si, shape in enumerate(SHAPES):
-                base = [None, 0o40000, None, 0, None, 0o157000, None, 0o2000, 0o1000, 0o3000, None, 0o60000, None, 0o4000, None, 0o2000, None][si] if d % 7 == 0 else None
+                base = [None, 0o40000, None, 0, None, 0o157000, None, 0o2000, 0o1000, 0o3000, None, 0o60000, None, 0o4000, None, 0o2000, None, 0o1000][si] if d % 7 == 0 else None
                 text, fails = check_branch(mn, d, shape, base)
                 if text is None:
                     continue
